@@ -105,4 +105,9 @@ def _convert_complexint32_array(
     if value_field_dtype is None:
         raise unsupported_dtype("array data type", value.dtype, _COMPLEX_DTYPES)
 
+    # ndarray.view to a dtype of a different size requires the last axis to be contiguous, so copy
+    # strided, transposed, and Fortran-ordered inputs to a C-contiguous array first.
+    if not value.flags.c_contiguous:
+        value = np.ascontiguousarray(value)
+
     return value.view(value_field_dtype).astype(requested_field_dtype).view(requested_dtype)
